@@ -72,11 +72,11 @@ def main(argv=None):
     by_backend = {}
     # ------------------------------------------------------------------ Verus groups
     for g in P.get('verus_groups', []):
-        r = vrun.run_group(g, repo=a.repo, seed=seed)
+        r = vrun.run_group(g, repo=a.repo, seed=seed, outdir=os.path.join(os.environ.get('VERIF_BUILD') or os.path.join(VERIF, 'build'), pid))
         if r['status'] != 'ok' and r['status'] == 'undecided' and not r.get('diags'):
             # one retry with a larger resource limit and another seed separates flakiness from failure
             if r.get('reason') and re.search(r'[Rr]esource limit|rlimit', r['reason']):
-                r = vrun.run_group(g, repo=a.repo, seed=seed + 1, rlimit=120)
+                r = vrun.run_group(g, repo=a.repo, seed=seed + 1, rlimit=600, outdir=os.path.join(os.environ.get('VERIF_BUILD') or os.path.join(VERIF, 'build'), pid))
         groups[g] = r
         if r['status'] != 'ok':
             undecided.append('verus group %s: %s' % (g, r['reason']))
@@ -149,6 +149,28 @@ def main(argv=None):
                 pb = kres['playback'].get(h) or {}
                 violations.append(dict(property=pid, engine='kani', harness=h, obligation=h, bytes=pb.get('bytes'),
                                        message='; '.join(pb.get('failed_checks', [])[:3]), detail=kres.get('log', '')[-1500:]))
+    # ------------------------------------------------------------------ thorough tier: solver-seed stability + seeded self-test
+    stability = []
+    self_test = []
+    if a.tier == 'thorough' and not os.environ.get('VERIF_NO_SELFTEST'):
+        for extra_seed in (seed + 1, seed + 2):
+            for g in P.get('verus_groups', []):
+                r2 = vrun.run_group(g, repo=a.repo, seed=extra_seed, log_air=False,
+                                    outdir=os.path.join(os.environ.get('VERIF_BUILD') or os.path.join(VERIF, 'build'), pid + '-seed'))
+                bad = [c for c in r2.get('diags', []) if pid in c['props']]
+                stability.append(dict(group=g, seed=extra_seed, status=r2['status'], failing=len(bad)))
+                base_bad = [c for c in groups[g].get('diags', []) if pid in c['props']]
+                if (r2['status'] != groups[g]['status']) or (len(bad) > 0) != (len(base_bad) > 0):
+                    undecided.append('verdict of group %s is not stable under solver seed %d' % (g, extra_seed))
+        sd = os.path.join(VERIF, 'seeded')
+        if os.path.abspath(a.repo) == '/repo' and os.path.isdir(sd):
+            import subprocess
+            for n in sorted(os.listdir(sd)):
+                if n.startswith(pid + '-') and os.path.exists(os.path.join(sd, n, 'patch.diff')):
+                    pr = subprocess.run([sys.executable, os.path.join(VERIF, 'tools', 'mutants.py'), n], stdout=subprocess.PIPE, stderr=subprocess.STDOUT, text=True,
+                                        env=dict(os.environ, VERIF_NO_SELFTEST='1'))
+                    line = [l for l in pr.stdout.split('\n') if l.startswith(n)]
+                    self_test.append(dict(seeded_change=n, outcome=(line[-1] if line else pr.stdout[-300:])[:400]))
     # ------------------------------------------------------------------ verdict
     EVDIR = os.environ.get('VERIF_EVIDENCE') or os.path.join(VERIF, 'evidence')
     os.makedirs(os.path.join(EVDIR, 'replay'), exist_ok=True)
@@ -208,7 +230,7 @@ def main(argv=None):
                                                                        'tools/{rsx,weave,vrun,krun}.py (extraction, rewrite rules, mapping)'],
                             functions_under_contract=unit_rows, by_backend=by_backend, samples=samples,
                             known_findings=[h['text'] for h, _ in known_hits], undecided=undecided,
-                            explanation=P.get('explanation', ''), bounded=P.get('bounded', []),
+                            explanation=P.get('explanation', ''), bounded=P.get('bounded', []), seed_stability=stability, seeded_self_test=self_test,
                             not_covered=P.get('not_covered', []),
                             dropped_by_extraction='#[cfg(test)] modules, doc comments, #[derive]/#[error]/#[inline]/#[cfg_attr]/#[non_exhaustive]/#[default] attributes (derived impls re-declared with assumed structural specs), every item not named by a //@item, //@verify or //@assume directive'),
               assumptions=sorted(set(assumptions)))
